@@ -857,6 +857,13 @@ def alias(tier, seed, ci, nc, count=6000):
 STREAMS['alias'] = alias
 
 
+def probes_c16(tier, seed, ci, nc):
+    yield ('rt:handbuilt_nomut',)
+
+
+STREAMS['probes_c16'] = probes_c16
+
+
 # ----------------------------------------------------------------------------- discovery
 def _corpus_prefork():
     from . import corpus
@@ -1067,8 +1074,8 @@ def wrap(tier, seed, ci, nc, count=600):
             own = tuple('%s%d' % (n, i) for n in rng.choice(owns))
             own_list.append(own)
         fps = rng.choice(funcs)
-        placement = rng.choice(['function', 'function_peek', 'function_forged', 'function_wraps', 'method', 'staticmethod'])
-        if any(p[1] == 'po' for p in fps) and placement == 'method':
+        placement = rng.choice(['function', 'function_peek', 'function_forged', 'function_wraps', 'method', 'method_falsy', 'staticmethod'])
+        if any(p[1] == 'po' for p in fps) and placement in ('method', 'method_falsy'):
             placement = 'function'
         yield ('rt:wrap', kind, tuple(own_list), fps, placement)
     if ci == 0:
@@ -1077,7 +1084,8 @@ def wrap(tier, seed, ci, nc, count=600):
         k = rng.choice([1, 2, 2, 3])
         fl = tuple(rng.choice([s for s in U('ab', 2)]) for _ in range(k))
         first = rng.choice(['arg', 'arg', 'value'])
-        yield ('rt:combination', fl, (first,) * k)
+        fwd = tuple(i for i in range(k) if rng.random() < 0.35)
+        yield ('rt:combination', fl, (first,) * k, fwd)
 
 
 STREAMS['wrap'] = wrap
